@@ -9,6 +9,11 @@ fn main() {
         let doc = vlib::report::read_replay(&args[2]);
         std::process::exit(vchecks::c17::native_replay(&doc["case"]));
     }
+    if args.len() >= 3 && args[1] == "absurd" {
+        vlib::report::quiet_panics();
+        vchecks::c17::native_absurd(args[2].parse().expect("absurd index"));
+        return;
+    }
     let tier = match args.get(1).map(|s| s.as_str()) {
         Some("thorough") => vlib::report::Tier::Thorough,
         _ => vlib::report::Tier::Quick,
